@@ -299,11 +299,46 @@ pub fn gen_funnel(rng: &mut StdRng) -> Prog {
         let r = next_res;
         next_res += 1;
         let m = rng.gen_range(4..=12);
-        for _ in 0..m {
+        // half of the rounds: the members also touch a second resource that nobody else uses, so that inside the
+        // group members conflict with members that are NOT their neighbours (a reader of r2 two places behind its
+        // writer, readers of r in between): the order inside a group is total, not neighbour-wise
+        let r2 = if rng.gen_bool(0.5) {
+            next_res += 1;
+            Some(next_res - 1)
+        } else {
+            None
+        };
+        for i in 0..m {
             let t = *[1u8, 1, 1, 2].choose(rng).unwrap();
-            let (rr, ww) = if rng.gen_bool(0.85) { (vec![], vec![r]) } else { (vec![r], vec![]) };
+            let (mut rr, mut ww) = if i == 0 || rng.gen_bool(if r2.is_some() { 0.5 } else { 0.85 }) { (vec![], vec![r]) } else { (vec![r], vec![]) };
+            if let Some(r2) = r2 {
+                if rng.gen_bool(0.45) {
+                    if rng.gen_bool(0.4) {
+                        ww.push(r2);
+                    } else {
+                        rr.push(r2);
+                    }
+                }
+            }
             ops.push(Op::Add { r: rr, w: ww, deps: vec![], t, name: if rng.gen_bool(0.2) { String::new() } else { format!("f{}", k) } });
             k += 1;
+        }
+        // a group whose members conflict with members that are NOT their neighbours: one writer of r, then readers of r of
+        // which the first and the third also share r2 (write/read, write/write or read/write) while the one in between
+        // does not touch r2 - behind a heavy anchor, so that the planner queues all four in one group
+        if rng.gen_bool(0.5) {
+            let (ra, r, r2) = (next_res, next_res + 1, next_res + 2);
+            next_res += 3;
+            ops.push(Op::Add { r: vec![], w: vec![ra], deps: vec![], t: 5, name: format!("h{}", k) });
+            ops.push(Op::Add { r: vec![], w: vec![r], deps: vec![], t: 1, name: format!("g{}", k + 1) });
+            let (first_w, third_w) = *[(true, false), (true, true), (false, true)].choose(rng).unwrap();
+            let with = |wr: bool| if wr { (vec![r], vec![r2]) } else { (vec![r, r2], vec![]) };
+            let (r1, w1) = with(first_w);
+            ops.push(Op::Add { r: r1, w: w1, deps: vec![], t: 1, name: format!("g{}", k + 2) });
+            ops.push(Op::Add { r: vec![r], w: vec![], deps: vec![], t: 1, name: if rng.gen_bool(0.3) { String::new() } else { format!("g{}", k + 3) } });
+            let (r3, w3) = with(third_w);
+            ops.push(Op::Add { r: r3, w: w3, deps: vec![], t: 1, name: format!("g{}", k + 4) });
+            k += 5;
         }
         // a dependency chain: resource-free short systems, each depending on the one before (now and then on an
         // earlier member too) - the planner queues them up in ONE group as long as that improves the balance, so the
